@@ -89,6 +89,7 @@ PROPS = {
             T("TestC08Decode", "codec", 12000, 1600000, shards=16, qshards=4),
             T("TestC08Corpus", "codec", 1, 1, enum=True),
             T("TestC08Proportional", "codec", 1, 1, enum=True),
+            T("TestC16Receiver", "recv", 120, 8000, shards=16, qshards=4, procs=4),
         ],
         "fuzz": [{"pkg": "codec", "name": "FuzzUnmarshal", "time": "120s", "timeout": 600},
                  {"pkg": "codec", "name": "FuzzLoadData", "time": "120s", "timeout": 600}],
@@ -133,6 +134,16 @@ PROPS = {
             T("TestC14Parse", "codec", 60000, 6000000, shards=8),
         ],
         "assumptions": ["the header table in docs/schema-native.md is the specification (independent reader in harness/internal/model/header.go)"],
+    },
+    "C16": {
+        "level": "exploration",
+        "tests": [T("TestC16Receiver", "recv", 160, 16000, shards=16, qshards=4, procs=4)],
+        "assumptions": [
+            "'eventually delivered' is decided in bounded form: with faults off, a frozen bucket and a draining consumer every other instance's newest decodable snapshot must arrive within 10 s of polling at 1 ms intervals; if the process itself was starved of CPU (heartbeat goroutine) the case is inconclusive, not a violation",
+            "the memory limits are observed through the lightningstream_climit_active gauges; the gauge is decremented just after the token is returned, so only an overshoot that persists over 4 samples counts",
+            "own-instance snapshots exist only before start-up (a running instance publishes its own snapshots itself)",
+            "run-once mode (program ends by itself after merging the start-up snapshots) is checked with the scheduler harness in the fleet package",
+        ],
     },
     "C18": {
         "level": "fault_enumeration",
